@@ -209,6 +209,81 @@ theorem contains_parallel_iff (ps : PlaneSector) (hop : ps.op = .intersection)
 
 end PlaneSector
 
+/-! ### the plane sector is exact beyond the error margin -/
+
+section Margin
+variable {K : Type} [CommRing K] [LinearOrder K] [IsStrictOrderedRing K]
+
+/-- `|dx| + |dy| ≤ 181` for every pixel of a circle of diameter up to 128 (doubled coordinates). -/
+theorem norm1_le_181 (delta : Pt) (h : delta.x * delta.x + delta.y * delta.y < 128 * 128) :
+    norm1 (K := K) delta ≤ 181 := by
+  have hi : |delta.x| + |delta.y| ≤ 181 := by
+    by_contra hc
+    have h1 : 182 ≤ |delta.x| + |delta.y| := by omega
+    have hx : |delta.x| * |delta.x| = delta.x * delta.x := by
+      rcases le_total 0 delta.x with h0 | h0
+      · rw [abs_of_nonneg h0]
+      · rw [abs_of_nonpos h0]; ring
+    have hy : |delta.y| * |delta.y| = delta.y * delta.y := by
+      rcases le_total 0 delta.y with h0 | h0
+      · rw [abs_of_nonneg h0]
+      · rw [abs_of_nonpos h0]; ring
+    nlinarith [abs_nonneg delta.x, abs_nonneg delta.y, mul_self_nonneg (|delta.x| - |delta.y|)]
+  unfold norm1
+  have : |(delta.x : K)| + |(delta.y : K)| = ((|delta.x| + |delta.y| : Int) : K) := by
+    push_cast
+    rfl
+  rw [this]
+  exact_mod_cast hi
+
+theorem norm1_nonneg (delta : Pt) : (0 : K) ≤ norm1 delta := by
+  unfold norm1
+  have := abs_nonneg (delta.x : K)
+  have := abs_nonneg (delta.y : K)
+  linarith
+
+/-- With both normals within `eps` of the exact scaled normals `Nl`, `Nr`, and `m` at least the
+error margin `eps |delta|_1`: a point at least `m` inside the exact sweep (measured from the two
+boundary LINES, in the scale of `N`) passes the plain half-plane test, a point more than `m`
+outside fails it. -/
+theorem containsPlain_of_margin (ps : PlaneSector) (Nl Nr : K × K) (eps m : K)
+    (hl : NormalWithin ps.left Nl eps) (hr : NormalWithin ps.right Nr eps) (delta : Pt)
+    (hm : eps * norm1 delta ≤ m) :
+    (ps.op = .intersection →
+      (exactDist Nl delta ≤ -m ∧ m ≤ exactDist Nr delta → ps.containsPlain delta = true) ∧
+      (m < exactDist Nl delta ∨ exactDist Nr delta < -m → ps.containsPlain delta = false)) ∧
+    (ps.op = .union →
+      (exactDist Nl delta ≤ -m ∨ m ≤ exactDist Nr delta → ps.containsPlain delta = true) ∧
+      (m < exactDist Nl delta ∧ exactDist Nr delta < -m → ps.containsPlain delta = false)) := by
+  have L1 := checkLeft_of_margin ps.left Nl eps hl delta
+  have L0 := checkLeft_false_of_margin ps.left Nl eps hl delta
+  have R1 := checkRight_of_margin ps.right Nr eps hr delta
+  have R0 := checkRight_false_of_margin ps.right Nr eps hr delta
+  unfold PlaneSector.containsPlain
+  refine ⟨fun hop => ⟨?_, ?_⟩, fun hop => ⟨?_, ?_⟩⟩ <;> rw [hop] <;> simp only [PlaneOp.execute]
+  · rintro ⟨h1, h2⟩
+    rw [L1 (by linarith), R1 (by linarith)]; rfl
+  · rintro (h | h)
+    · rw [L0 (by linarith)]; rfl
+    · rw [R0 (by linarith)]; simp
+  · rintro (h | h)
+    · rw [L1 (by linarith)]; rfl
+    · rw [R1 (by linarith)]; simp
+  · rintro ⟨h1, h2⟩
+    rw [L0 (by linarith), R0 (by linarith)]; rfl
+
+/-- The margin for the property's numbers: normals accurate to `eps ≤ 16` (of 1024) and a circle of
+diameter up to 128 give an error margin below `3 * 1024`, i.e. 3 half-pixel units = 1.5 px. -/
+theorem margin_le_3072 (n : Pt) (N : K × K) (eps : K) (h : NormalWithin n N eps) (he : eps ≤ 16)
+    (delta : Pt) (hd : delta.x * delta.x + delta.y * delta.y < 128 * 128) :
+    eps * norm1 delta ≤ 3072 := by
+  have h0 : 0 ≤ eps := le_trans (abs_nonneg _) h.1
+  have h1 := norm1_le_181 (K := K) delta hd
+  have h2 := norm1_nonneg (K := K) delta
+  nlinarith [mul_le_mul he h1 h2 (by linarith : (0 : K) ≤ 16)]
+
+end Margin
+
 /-! ### translation (export for C07) -/
 
 namespace Sector
